@@ -514,6 +514,9 @@ SUBCHECKS = [
     SubCheck("C02.perturbed", run_case, strategy=perturbed_case, quick=6000, thorough=300000,
              rule="INVALID by exactly one reason through a single boundary operator, or VALID with >=2 trees",
              floors={"INVALID": 0.3, "VALID": 0.05}),
+    SubCheck("C02.perturbed_asan", run_case, strategy=perturbed_case, quick=1500, thorough=100000,
+             flavour="asan",
+             rule="same as C02.perturbed, executed on the ASan+UBSan build so that a rejection path that reads out of bounds dies visibly"),
     SubCheck("C02.valid_accepted", run_valid, strategy=valid_case, quick=1500, thorough=50000,
              rule="valid collection with >=2 trees", floors={"multi_tree": 0.2}),
 ]
